@@ -253,11 +253,12 @@ void VGMFileDumper::writePan(uint16_t /*chan*/, uint8_t /*data*/)
 
 void VGMFileDumper::nativeGenerateN(int16_t *output, size_t frames)
 {
+    // The dumper is silent: also the chips and states that write nothing hand back a cleared buffer
+    std::memset(output, 0, frames * sizeof(int16_t) * 2);
     if(!m_output)
         return;
     if(m_chip_index > 0 || m_end_caught) // When it's a second chip
         return;
-    std::memset(output, 0, frames * sizeof(int16_t) * 2);
     m_delay += size_t(frames * (44100.0 / double(m_actual_rate)));
 }
 
